@@ -696,7 +696,7 @@ func (d *Dials[T]) monitor(
 					})
 				}
 			case *watchErrorReport:
-				if !skipVerify && !d.params.CallGlobalCallbacksAfterVerificationEnabled {
+				if !(skipVerify && d.params.CallGlobalCallbacksAfterVerificationEnabled) {
 					d.submitEvent(ctx, &watchErrorEvent[T]{
 						err: fmt.Errorf("error reported by source of type %T: %w",
 							v.source, v.err),
